@@ -4,7 +4,7 @@ use crate::proto::{unhex, unhex_str};
 use std::collections::{HashMap, VecDeque};
 use std::io::{BufRead, BufReader, Read, Write};
 use std::os::unix::net::{UnixListener, UnixStream};
-use std::os::unix::process::{CommandExt, ExitStatusExt};
+use std::os::unix::process::CommandExt;
 use std::path::{Path, PathBuf};
 use std::process::{Command, Stdio};
 use std::sync::atomic::{AtomicBool, AtomicUsize, Ordering};
@@ -52,6 +52,10 @@ pub struct ProcInfo {
     pub pid: i32,
     pub exited: bool,
     pub stdin: Option<std::process::ChildStdin>,
+    /// The child is NOT reaped when it exits (its status is read with WNOWAIT): as long as the
+    /// zombie exists the kernel cannot hand its pid to an unrelated process, so signalling the
+    /// process group `-pid` can never hit a stranger. Reaped in `Ctl::drop`.
+    child: Arc<Mutex<Option<std::process::Child>>>,
 }
 
 pub struct Ctl {
@@ -199,14 +203,16 @@ impl Ctl {
         let id = self.procs.len();
         let pid = child.id() as i32;
         let stdin = child.stdin.take();
+        let mut so = child.stdout.take().unwrap();
+        let mut se = child.stderr.take().unwrap();
+        let slot = Arc::new(Mutex::new(Some(child)));
         self.procs.push(ProcInfo {
             name: name.to_string(),
             pid,
             exited: false,
             stdin,
+            child: slot,
         });
-        let mut so = child.stdout.take().unwrap();
-        let mut se = child.stderr.take().unwrap();
         let tx = self.tx.clone();
         std::thread::spawn(move || {
             let h = std::thread::spawn(move || {
@@ -217,10 +223,17 @@ impl Ctl {
             let mut out = Vec::new();
             let _ = so.read_to_end(&mut out);
             let err = h.join().unwrap_or_default();
-            let st = child.wait();
-            let (code, signal) = match st {
-                Ok(s) => (s.code(), s.signal()),
-                Err(_) => (None, None),
+            // learn the exit status without reaping
+            let (code, signal) = unsafe {
+                let mut info: libc::siginfo_t = std::mem::zeroed();
+                let r = libc::waitid(libc::P_PID, pid as libc::id_t, &mut info, libc::WEXITED | libc::WNOWAIT);
+                if r != 0 {
+                    (None, None)
+                } else if info.si_code == libc::CLD_EXITED {
+                    (Some(info.si_status()), None)
+                } else {
+                    (None, Some(info.si_status()))
+                }
             };
             let _ = tx.send(Ev::Exit(ProcExit {
                 proc_id: id,
@@ -324,10 +337,15 @@ impl Ctl {
 
 impl Drop for Ctl {
     fn drop(&mut self) {
-        // no straggler may survive the world
+        // no straggler may survive the world; the unreaped leaders keep their pids reserved until here
         for p in &self.procs {
             unsafe {
                 libc::kill(-p.pid, libc::SIGKILL);
+            }
+        }
+        for p in &self.procs {
+            if let Some(mut c) = p.child.lock().unwrap().take() {
+                let _ = c.wait();
             }
         }
         self.stop.store(true, Ordering::SeqCst);
